@@ -22,6 +22,9 @@ PROPERTY = "C13"
 EXTRA_WHITELIST = [
     "schemathesis.specs.openapi.schemas",
     "schemathesis.specs.openapi.references",
+    # response validation happens inside jsonschema: two workers' validations can only overlap if a switch is possible there
+    "jsonschema.validators",
+    "jsonschema._keywords",
 ]
 CASE_ID = "x-schemathesis-testcaseid"
 # standard client headers whose value is transport framing, not test data
